@@ -98,5 +98,9 @@ class World:
     def rel(self, p):
         return os.path.relpath(p, self.root)
 
+    def real(self, p):
+        """Model path ("<W>/...") -> real path in this world."""
+        return p.replace("<W>", self.root, 1) if p.startswith("<W>") else p
+
     def destroy(self):
         shutil.rmtree(self.root, ignore_errors=True)
